@@ -14,17 +14,22 @@ Open Scope nat_scope.
    paths of the unshared tree, nothing else). *)
 Definition C07_full_statement (fixed : bool) : Prop := forall d r ops h t, abs d h r = Some t ->
   snd (runI_gen fixed d (init_state h r) ops) = snd (runS d t ops).
-(* `fixed` = Values.fixed_D97: false = the code as it is (runI = runI_gen false): a variable declared by a bare integer casts
-   every value it is given to int; true = the repair fixes/fix_D97.diff (the dtype follows the value). *)
+(* `fixed` = Values.fixed_D97: true = the code as it is since fix D97 (runI = runI_gen true: the dtype follows the value); false = the mechanism
+   before the fix: a variable declared by a bare integer cast every value it was given to int. *)
 
-(* the code as it is: the full statement for every history in which no compilation hands a non-integral value to an
-   integer-declared variable (decidable guard int_exact; vacuous once fixed_D97 = true) *)
-Theorem C07_partial : forall d r ops h t, abs d h r = Some t -> fixed_D97 = true \/ int_exact d t ops = true ->
-  snd (runI d (init_state h r) ops) = snd (runS d t ops).
-Proof. exact history_outputs. Qed.
-Print Assumptions C07_partial.
+(* Headline, the code as it is (fix D97 in): the full statement without hypothesis *)
+Theorem C07_full : C07_full_statement fixed_D97.
+Proof. exact history_outputs_head. Qed.
+Print Assumptions C07_full.
 
-(* with the repair: no hypothesis *)
+(* the mechanism before fix D97 satisfied it only for histories in which no compilation hands a non-integral value to an
+   integer-declared variable (decidable guard int_exact) *)
+Theorem C07_partial_before_fix : forall fx d r ops h t, abs d h r = Some t -> fx = true \/ int_exact d t ops = true ->
+  snd (runI_gen fx d (init_state h r) ops) = snd (runS d t ops).
+Proof. exact history_outputs_guarded. Qed.
+Print Assumptions C07_partial_before_fix.
+
+(* the same, stated for the explicit switch value *)
 Theorem C07_full_when_fixed : C07_full_statement true.
 Proof. exact history_outputs_fixed. Qed.
 Print Assumptions C07_full_when_fixed.
@@ -139,7 +144,7 @@ Example C07_base_untouched :
 Proof. vm_compute. auto. Qed.
 Print Assumptions C07_base_untouched.
 
-(* finding D97 (open until fix_D97 lands): `tau` is declared by the integer 10; update_var('A/op/tau', 25/2) compiles
+(* former finding D97 (repaired; kept as `_before_fix` statement and regression witness): `tau` is declared by the integer 10; update_var('A/op/tau', 25/2) compiles
    A/op/tau = 12 (specification: 25/2); B keeps 10 *)
 Definition int_heap : heap :=
   [OOp "op" ["d/dt * x = k*r + g + u"%string]
